@@ -116,6 +116,9 @@ def tree(draw, P, max_files=8, modes=None, single=None, min_files=1, cli_safe=Fa
         files.append(f)
     if nonempty_total and all(f["size"] == 0 for f in files):
         files[0]["size"] = 1 + draw(st.integers(0, 2 * P))
+    if len(files) == 1 and files[0]["path"] == [name]:
+        # BEP 52 cannot tell "directory x holding only file x" from "single file x": not generated
+        files[0]["path"] = [name + "~f"]
     return {"name": name, "single": False, "files": files}
 
 
